@@ -181,6 +181,39 @@ def hintAttrs : List (String × String) := [
   ("familyBlues", "postscriptFamilyBlues"), ("familyOtherBlues", "postscriptFamilyOtherBlues"),
   ("forceBold", "postscriptForceBold"), ("hStems", "postscriptStemSnapH"), ("vStems", "postscriptStemSnapV")]
 
+/-- what the conversion of one hint entry is: the value is copied, or it is a list of zones (pairs) that becomes
+    one flat list -/
+inductive HintKind where
+  | copied | zonesFlattened
+  deriving DecidableEq, Repr
+
+/-- the hint entries that are lists of zones -/
+def hintZoneLists : List String := ["blueValues", "otherBlues", "familyBlues", "familyOtherBlues"]
+
+def hintKindOf (entry : String) : HintKind := if hintZoneLists.contains entry then .zonesFlattened else .copied
+
+/-- the value the target attribute must hold -/
+def hintValue (k : HintKind) (v : Val) : Val :=
+  match k, v with
+  | .zonesFlattened, .numss l => .nums l.flatten
+  | _, x => x
+
+/-- type of every hint entry as the robofab data carries it -/
+def hintEntryTypes : List (String × String) := [
+  ("blueFuzz", "f64"), ("blueScale", "f64"), ("blueShift", "f64"), ("forceBold", "bool"),
+  ("hStems", "Vec<f64>"), ("vStems", "Vec<f64>"),
+  ("blueValues", "Vec<Vec<f64>>"), ("otherBlues", "Vec<Vec<f64>>"), ("familyBlues", "Vec<Vec<f64>>"),
+  ("familyOtherBlues", "Vec<Vec<f64>>")]
+
+/-- the role of the three feature keys: (lib key, role) with 0 = text put first, 1 = dictionary of blocks put after
+    a newline, 2 = order of the blocks -/
+def featureKeyRoles : List (String × Nat) := [
+  ("org.robofab.opentype.classes", 0), ("org.robofab.opentype.features", 1),
+  ("org.robofab.opentype.featureorder", 2)]
+
+/-- block orders admitted when the lib has no order list (the statement fixes none) -/
+def fallbackOrders : List String := ["sorted", "mapOrder"]
+
 /-! ### feature text -/
 
 def perms {α} : List α → List (List α)
